@@ -40,27 +40,30 @@ type config struct {
 	timeoutT time.Duration
 	level    string
 	fuzz     []fuzzTarget
+	// arch32: the work of one shard is run a second time by a 32-bit build of the check (GOARCH=386, runs natively on
+	// amd64 Linux): the library is deployed on 32-bit ARM boards, where int and uint are 32 bits wide
+	arch32 bool
 }
 
 var configs = map[string]config{
-	"C01": {pkg: "./checks/c01", shardsQ: 4, shardsT: 16, level: "exploration"},
-	"C02": {pkg: "./checks/c02", shardsQ: 8, shardsT: 16, level: "exploration", fuzz: []fuzzTarget{{"FuzzReply", 120}}},
+	"C01": {pkg: "./checks/c01", shardsQ: 4, shardsT: 16, level: "exploration", arch32: true},
+	"C02": {pkg: "./checks/c02", shardsQ: 8, shardsT: 16, level: "exploration", fuzz: []fuzzTarget{{"FuzzReply", 120}}, arch32: true},
 	"C03": {pkg: "./checks/c03", shardsQ: 4, shardsT: 16, level: "fault_enumeration", fuzz: []fuzzTarget{{"FuzzDatagrams", 90}}},
 	"C04": {pkg: "./checks/c04", shardsQ: 4, shardsT: 16, level: "exploration", fuzz: []fuzzTarget{{"FuzzUnmarshalAll", 90}, {"FuzzAPIReply", 90}, {"FuzzListenHandler", 60}}},
-	"C05": {pkg: "./checks/c05", shardsQ: 4, shardsT: 16, level: "exploration", fuzz: []fuzzTarget{{"FuzzRoundTrip", 120}}},
+	"C05": {pkg: "./checks/c05", shardsQ: 4, shardsT: 16, level: "exploration", fuzz: []fuzzTarget{{"FuzzRoundTrip", 120}}, arch32: true},
 	"C06": {pkg: "./checks/c06", shardsQ: 8, shardsT: 16, level: "exploration"},
-	"C07": {pkg: "./checks/c07", shardsQ: 4, shardsT: 16, level: "exploration", fuzz: []fuzzTarget{{"FuzzArgs", 90}}},
+	"C07": {pkg: "./checks/c07", shardsQ: 4, shardsT: 16, level: "exploration", fuzz: []fuzzTarget{{"FuzzArgs", 90}}, arch32: true},
 	"C08": {pkg: "./checks/c08", race: true, shardsQ: 4, shardsT: 12, level: "exploration"},
 	"C09": {pkg: "./checks/c09", shardsQ: 4, shardsT: 12, level: "fault_enumeration"},
 	"C10": {pkg: "./checks/c10", shardsQ: 4, shardsT: 12, level: "exploration"},
 	"C11": {pkg: "./checks/c11", shardsQ: 4, shardsT: 12, level: "exploration"},
-	"C12": {pkg: "./checks/c12", shardsQ: 2, shardsT: 16, level: "exploration", fuzz: []fuzzTarget{{"FuzzBCD", 90}}},
-	"C13": {pkg: "./checks/c13", shardsQ: 8, shardsT: 16, level: "exploration"},
-	"C14": {pkg: "./checks/c14", shardsQ: 4, shardsT: 16, level: "exploration", fuzz: []fuzzTarget{{"FuzzText", 120}}},
-	"C15": {pkg: "./checks/c15", shardsQ: 4, shardsT: 16, level: "exploration", fuzz: []fuzzTarget{{"FuzzAddr", 90}}},
-	"C16": {pkg: "./checks/c16", shardsQ: 4, shardsT: 16, level: "exploration"},
-	"C17": {pkg: "./checks/c17", shardsQ: 4, shardsT: 16, level: "exploration"},
-	"C18": {pkg: "./checks/c18", shardsQ: 4, shardsT: 16, level: "exploration", fuzz: []fuzzTarget{{"FuzzLayout", 120}}},
+	"C12": {pkg: "./checks/c12", shardsQ: 2, shardsT: 16, level: "exploration", fuzz: []fuzzTarget{{"FuzzBCD", 90}}, arch32: true},
+	"C13": {pkg: "./checks/c13", shardsQ: 8, shardsT: 16, level: "exploration", arch32: true},
+	"C14": {pkg: "./checks/c14", shardsQ: 4, shardsT: 16, level: "exploration", fuzz: []fuzzTarget{{"FuzzText", 120}}, arch32: true},
+	"C15": {pkg: "./checks/c15", shardsQ: 4, shardsT: 16, level: "exploration", fuzz: []fuzzTarget{{"FuzzAddr", 90}}, arch32: true},
+	"C16": {pkg: "./checks/c16", shardsQ: 4, shardsT: 16, level: "exploration", arch32: true},
+	"C17": {pkg: "./checks/c17", shardsQ: 4, shardsT: 16, level: "exploration", arch32: true},
+	"C18": {pkg: "./checks/c18", shardsQ: 4, shardsT: 16, level: "exploration", fuzz: []fuzzTarget{{"FuzzLayout", 120}}, arch32: true},
 }
 
 var root = "/verif"
@@ -131,6 +134,24 @@ func buildWith(id string, c config, fuzz bool) string {
 	return bin
 }
 
+// build32 builds the 32-bit variant of the check's test binary (no race detector, no cgo).
+func build32(id string, c config) string {
+	bin := filepath.Join(outRoot, ".build", strings.ToLower(id)+".386.test")
+	args := []string{"test", "-c", "-tags", "verif", "-o", bin}
+	if repo := os.Getenv("VERIF_REPO"); repo != "" {
+		args = append(args, "-modfile", filepath.Join(outRoot, "alt.mod")) // (written by the 64-bit build just before)
+	}
+	args = append(args, c.pkg)
+	cmd := exec.Command("go", args...)
+	cmd.Dir = root
+	cmd.Env = append(env(), "GOARCH=386", "GO386=sse2", "CGO_ENABLED=0")
+	if b, err := cmd.CombinedOutput(); err != nil {
+		fmt.Printf("%s\n", b)
+		fatal2("32-bit build of %s failed against /repo's working tree: %v", c.pkg, err)
+	}
+	return bin
+}
+
 type shardResult struct {
 	shard   int
 	exit    int
@@ -147,11 +168,16 @@ type raceReport struct {
 	library     bool
 }
 
-func runShard(bin, id, tier string, c config, shard, shards int, dir string, timeout time.Duration) shardResult {
-	outPath := filepath.Join(dir, fmt.Sprintf("shard-%d.json", shard))
-	logPath := filepath.Join(dir, fmt.Sprintf("shard-%d.log", shard))
-	racePrefix := filepath.Join(dir, fmt.Sprintf("race-%d", shard))
-	cwd := filepath.Join(dir, fmt.Sprintf("cwd-%d", shard))
+func runShard(bin, id, tier string, c config, shard, shards int, dir string, timeout time.Duration, label ...string) shardResult {
+	name := strconv.Itoa(shard)
+	if len(label) > 0 {
+		name += "-" + label[0]
+		c.race = false
+	}
+	outPath := filepath.Join(dir, fmt.Sprintf("shard-%s.json", name))
+	logPath := filepath.Join(dir, fmt.Sprintf("shard-%s.log", name))
+	racePrefix := filepath.Join(dir, fmt.Sprintf("race-%s", name))
+	cwd := filepath.Join(dir, fmt.Sprintf("cwd-%s", name))
 	os.MkdirAll(cwd, 0o755)
 	cmd := exec.Command(bin, "-test.timeout", timeout.String(), "-test.v=false")
 	cmd.Dir = cwd
@@ -326,6 +352,17 @@ func main() {
 			results[i] = runShard(bin, id, tier, c, i, shards, dir, timeout)
 		}(i)
 	}
+	if c.arch32 && os.Getenv("VERIF_NO_ARCH32") == "" {
+		// the share of one shard (chosen by the seed) once more, as a 32-bit process
+		bin32 := build32(id, c)
+		k := int(seed() % int64(shards))
+		results = append(results, shardResult{})
+		wg.Add(1)
+		go func() {
+			defer wg.Done()
+			results[shards] = runShard(bin32, id, tier, c, k, shards, dir, timeout, "386")
+		}()
+	}
 	wg.Wait()
 
 	var fuzzNotes []map[string]any
@@ -450,6 +487,9 @@ func main() {
 	cov["samples"] = samples
 	cov["classes"] = classes
 	cov["shards"] = shards
+	if len(results) > shards {
+		cov["word_sizes"] = fmt.Sprintf("%d shards as 64-bit processes; the share of shard %d once more as a 32-bit process (GOARCH=386)", shards, int(seed()%int64(shards)))
+	}
 	cov["exhaustive"] = exhaustive && evaluations > 0
 	if len(excluded) > 0 {
 		cov["excluded_by_known_findings"] = excluded
@@ -635,6 +675,14 @@ func replay(path string) {
 		os.Exit(0)
 	}
 	bin := build(id, c)
+	if b, err := os.ReadFile(abs); err == nil {
+		var rf struct {
+			Arch string `json:"arch"`
+		}
+		if json.Unmarshal(b, &rf) == nil && rf.Arch == "386" {
+			bin = build32(id, c) // found by the 32-bit shard: replayed by the 32-bit build
+		}
+	}
 	cwd := filepath.Join(outRoot, ".build", "out", id, "replay")
 	os.MkdirAll(cwd, 0o755)
 	cmd := exec.Command(bin, "-test.run", "^TestReplay$", "-test.v", "-test.timeout", "10m")
